@@ -33,14 +33,17 @@ RULE = ('case = header (Machine or HierarchicalMachine, auto_transitions, ignore
 ASSUMPTIONS = ['callbacks neither raise nor call back into the machine (C04/C05)',
                'hierarchical laws (nested dict vs joined names, embedded machine with remap) are checked by '
                'implementation-vs-implementation comparison only (extra_checks), not by the Coq model',
-               'State objects passed as references are the registered objects (identity is not modelled)']
+               'State objects passed as references are the registered objects (identity is not modelled)',
+               'no known finding is attributed by this check: D27/D28 (Enum/State forms in add_ordered_transitions '
+               'states and in Machine.remove_transition filters) are fixed in /repo and proved as laws']
 THEOREMS = ['C13_callback_repr', 'C13_callback_repr_state', 'C13_callback_repr_machine', 'C13_state_repr',
             'C13_state_name_obj', 'C13_state_dict_obj', 'C13_ignore_fallback', 'C13_ref_repr', 'C13_initial_repr',
             'C13_ctor_later', 'C13_ctor_unfold', 'C13_script_compose', 'C13_batch_states', 'C13_batch_transitions',
             'C13_list_dict', 'C13_list_dict_forms', 'C13_wildcard', 'C13_many_split', 'C13_reflexive',
             'C13_wildcard_reflexive', 'C13_ordered_ring', 'C13_ordered_ring_example', 'C13_remove_inverse',
             'C13_behaviour', 'C13_behaviour_history', 'C13_equal_scripts_behave_equally',
-            'C13_ordered_enum_refuted', 'C13_remove_enum_refuted', 'C13_remove_filter_repr_hsm']
+            'C13_ordered_repr', 'C13_ordered_ts_repr', 'C13_ordered_default_states', 'C13_ordered_enum_example',
+            'C13_remove_filter_repr', 'C13_remove_match_repr', 'C13_remove_enum_example']
 THEOREM_OF_DIFF = 'corr_C13: Build.exec = what /repo builds (Props/C13.v laws are about Build.exec)'
 
 SLOTS5 = ['conditions', 'unless', 'before', 'after', 'prepare']
@@ -578,8 +581,8 @@ def gen_description(rng, hsm, auto, malformed):
             else:
                 edge_cbs = [cbset() for _ in edges]
             it = dict(kind='ordered', states=states, trig=trig, loop=loop, incl=incl, edge_cbs=edge_cbs)
-            if states is not None and r.random() < 0.08:
-                it['p_other'] = 0.6          # Enum members / State objects in the explicit list (KF-C13-1 when it matters)
+            if states is not None and r.random() < 0.5:
+                it['p_other'] = 0.6          # Enum members / State objects in the explicit list (D27, fixed)
             items.append(it)
             for s, d in edges:
                 sim.trans.append((trig, s, d))
@@ -599,8 +602,8 @@ def gen_description(rng, hsm, auto, malformed):
                 src = None if m < 0.3 else sorted({t[1]} | ({r.choice(cur)} if r.random() < 0.3 else set()))
                 dst = None if m > 0.6 else [t[2]] + ([r.choice(cur)] if r.random() < 0.2 else [])
             it = dict(kind='remove', trig=trig, src=src, dst=dst)
-            if r.random() < (0.5 if hsm else 0.08):
-                it['p_other'] = 0.6          # core: Enum/State objects in the filter never match (KF-C13-2)
+            if r.random() < 0.5:
+                it['p_other'] = 0.6          # Enum members / State objects as filter elements (D28, fixed)
             items.append(it)
             sim.trans = [x for x in sim.trans
                          if not (x[0] == trig and (src is None or x[1] in src) and (dst is None or x[2] in dst))]
@@ -620,6 +623,8 @@ def gen_description(rng, hsm, auto, malformed):
                 rem = dict(kind='remove', trig=trig, src=None, dst=None)
             else:
                 rem = dict(kind='remove', trig=trig, src=[s], dst=[d])
+            if r.random() < 0.4:
+                rem['p_other'] = 0.6
             items.append(dict(kind='detour', adds=adds, remove=rem))
     if later and r.random() < 0.5:
         items.append(dict(kind='states', states=later))
@@ -1039,37 +1044,6 @@ def oracle(case, obs):
         if x != y:
             return 'two scripts of one description differ in %s: %r vs %r' % (names[i], x, y)
     return 'two scripts differ'
-
-
-def _kf_classes(case):
-    """the decidable input classes of the two known findings"""
-    out = set()
-    hsm = case['hdr']['hsm']
-    for key in ('A', 'B'):
-        init = None
-        for o in case[key]['ops']:
-            if o['op'] == 'initial':
-                init = o['r'][1]
-            elif o['op'] == 'ordered' and o['states'] is not None:
-                occ = [r for r in o['states'] if r[1] == init]
-                if occ and occ[0][0] != 0:
-                    out.add('KF-C13-1')
-            elif o['op'] == 'remove' and not hsm:
-                for f in (o['src'], o['dst']):
-                    if f and any(x is not None and x[0] != 0 for x in f):
-                        out.add('KF-C13-2')
-    return out
-
-
-def classify_known(case, model_obs, impl_obs):
-    # only oracle failures (two real machines differ) are ever attributed to a known finding;
-    # a model/implementation disagreement never is
-    if model_obs is not None:
-        return None
-    ks = _kf_classes(case)
-    if not ks:
-        return None
-    return sorted(ks)[0]
 
 
 def in_envelope(case):
